@@ -281,7 +281,14 @@ class _Snprintf:
         if self.is_size(e):
             return "eq"
         if k == "var":
-            return "eq" if e["id"] in st.eq else ("le1" if e["id"] in st.le1 else None)
+            if e["id"] in st.eq:
+                return "eq"
+            if e["id"] in st.le1:
+                return "le1"
+            for v_, k_ in st.z:
+                if v_ == e["id"]:
+                    return ("le1z", k_)
+            return None
         if k == "int":
             return "le1" if e["v"] == 0 and st.lo >= 1 else None
         if k == "binop" and e["op"] == "-" and _strip(e["r"]).get("k") == "int" and _strip(e["r"])["v"] >= 1:
@@ -340,6 +347,8 @@ class _Snprintf:
                     li = self.WRITERS[cal]
                     c = self.classify(args[li], st) if li < len(args) else None
                     ok = c == "le1" or ("snprintf" in cal and c in ("eq", "le1"))
+                    if isinstance(c, tuple) and c[0] == "le1z" and c[1] >= 1 and "snprintf" not in cal:
+                        return st                 # a length that is 0, or within a buffer the helper saw room in: nothing or a bounded amount is written
                     if not ok:
                         self.report(line, "unbounded-write:%s" % cal,
                                     "%s writes into d->buf with a length that is not known to be at most d->size - 1 (MIN (d->size - 1, ...) or an "
@@ -382,8 +391,12 @@ class _Snprintf:
                 if l.get("k") == "var":
                     out[0] = _SnState(st.le1 - {l["id"]}, st.eq - {l["id"]}, st.lo, frozenset(x for x in st.z if x[0] != l["id"]))
                 elif self.is_size(l):
-                    keep = n["op"] == "-=" and self.classify(n["r"], st) == "le1"
-                    out[0] = _SnState(lo=1 if keep else 0)        # size - n >= 1 when n <= size - 1
+                    cr = self.classify(n["r"], st) if n["op"] == "-=" else None
+                    keep = cr == "le1"
+                    if isinstance(cr, tuple) and cr[0] == "le1z":
+                        out[0] = _SnState(lo=min(st.lo, 1))       # n == 0: size unchanged;  otherwise size - n >= 1
+                    else:
+                        out[0] = _SnState(lo=1 if keep else 0)    # size - n >= 1 when n <= size - 1
                 return False
             if k == "unop" and n["op"] in ("post++", "post--", "pre++", "pre--"):
                 l = _strip(n["e"])
